@@ -425,6 +425,12 @@ def judge(plan, res, col, tag='', minimise=True):
                     raise RuntimeError('stub produced something else than planned: %r vs %r' % (pp, rec))
         model = model_batch(plan, ent)
         models.update(model)
+        # every source file of the batch declares the package of the directory it was written to (otherwise a batch of
+        # valid programs is rejected with duplicate classes although each compiles alone)
+        for f in (ent.get('compile') or {}).get('files', []):
+            if f.get('package') is not None and f.get('pid') is not None and f['package'] != 'src.' + str(f.get('directory')):
+                V('C15/layout/package-declaration-differs-from-directory',
+                  {'declared': f['package'], 'directory': f.get('directory'), 'role': f.get('role')}, [f['pid']])
         labels = [outcome_label(ent['gen'][str(p)], plan, p) for p in pids]
         crash = bool((ent.get('compile') or {}).get('crash'))
         any_crash = any_crash or crash
